@@ -20,7 +20,7 @@ LEVEL_TEXT = ('Static decision of the structural necessary conditions of termina
               'bookkeeping, a ranking argument (a failed iteration leaves the loop), thresholds of the stop predicate '
               'written by nobody, resolution of every evaluated external symbol, no dead store to a name-mangled attribute from outside its '
               'class, the first-iteration guard left in the in-progress state by state-restoring entry points, and no recursive copy '
-              'of linked search items on the path of the solving API.')
+              'of linked search items on the path of the solving API; the objective is not run under a numpy error mode of raise.')
 EXPLANATION = ('Every syntactic path of the evaluation routine, the iteration driver (loop unrolled <= 2), the stop '
                'routine and the solve driver is abstracted to its event sequence; counters must change exactly once '
                'per evaluation/iteration after the objective returned, the stop routine must return exactly '
@@ -713,6 +713,38 @@ def r03_8(ctx: Ctx):
             ctx.ok(rid, f'SolverParameters.{fld}', 'written only by the SolverParameters constructor', pc.lookup('__init__').loc())
 
 
+def r03_10(ctx: Ctx):
+    """The search stops when the criterion holds and not before.  Solve treats any exception of an iteration as the end
+    of the search; running the objective under a floating-point error mode of 'raise' manufactures such exceptions
+    for objectives whose values are perfectly finite (exp overflows to inf inside 1/(1+exp(..)), a division by zero
+    whose result is absorbed): the search ends after a few trials with the accuracy far above eps."""
+    rid = 'R03.10'
+    ctx.rule(rid, 'the objective is not run under a numpy error mode of "raise" (np.errstate / np.seterr with a '
+                  '"raise" argument around the objective call on the search path)')
+    from . import c16
+    n = 0
+    try:
+        blocks = c16.with_blocks_around_objective(ctx)
+    except RoleMissing as e:
+        ctx.note(f'{rid}: not applied ({e}); the role rules report it')
+        return
+    for f, nd in blocks:
+        for item in nd.items:
+            ce = item.context_expr
+            n += 1
+            if isinstance(ce, ast.Call) and any(d in ('numpy.errstate',) for d in ctx.pta.ext_callees(f, ce)):
+                modes = [k for k in ce.keywords if isinstance(k.value, ast.Constant) and k.value.value == 'raise']
+                if modes:
+                    ctx.fail(rid, f.short, f.loc(nd),
+                             f'`with {ast.unparse(ce)[:60]}` encloses the objective call: a floating-point event inside an '
+                             f'objective whose value is finite now raises FloatingPointError, Solve takes it for a failed '
+                             f'iteration and returns long before the accuracy criterion holds',
+                             key=f'{rid}::{f.short}::errstate-raise')
+    if not any(x.rule == rid for x in ctx.findings):
+        ctx.ok(rid, 'evaluation chain', f'{n} context managers enclose the objective call: none switches numpy to "raise"',
+               'iOpt/method')
+
+
 def r03_9(ctx: Ctx):
     """Recursive traversals of the search data.  copy.deepcopy / pickle of a stored search item follow its neighbour
     links recursively: the recursion depth grows with the number of trials, and the RecursionError (an exception like
@@ -775,6 +807,8 @@ def r03_9(ctx: Ctx):
 def check(ctx: Ctx):
     if C.want(ctx, 'R03.9'):
         r03_9(ctx)
+    if C.want(ctx, 'R03.10'):
+        r03_10(ctx)
     if C.want(ctx, 'R-LINK'):
         r_link(ctx.full_view())
         r_link_private(ctx.full_view())
